@@ -27,7 +27,7 @@ class K:
 CLASSES = {"A": A, "B": B, "C": C, "K": K, "int": int, "bool": bool, "str": str, "float": float, "object": object}
 _VALIDATORS = {
     "even": validated(lambda o: isinstance(o, int) and o % 2 == 0, "even"),
-    "nonempty": validated(lambda o: hasattr(o, "__len__") and len(o) > 0, "nonempty"),
+    "nonempty": validated(lambda o: not isinstance(o, type) and hasattr(o, "__len__") and len(o) > 0, "nonempty"),          # (a total predicate: classes have no length)
 }
 _BOUNDED = {}
 
@@ -90,6 +90,9 @@ def gamma_type(T, style=0):
         return tuple[g(T["a"]), ...] if pep else Tuple[g(T["a"]), ...]
     if k == "type":
         targ = Any if T["c"] == "any" else CLASSES[T["c"]]
+        return type[targ] if pep else Type[targ]
+    if k == "typeu":
+        targ = Union[tuple(CLASSES[c] for c in T["cs"])]
         return type[targ] if pep else Type[targ]
     if k == "union":
         args = [g(a) for a in T["as"]]
